@@ -55,6 +55,15 @@ def build_pairs(tier, seed):
     seeds = [(i, t) for i, k, t in T.stream(seed, 0, 0)]
     for i, t in seeds:
         pairs.append(("s:" + i, "seed:suffix", t, suffix_rename(t)))
+    # name-confusion shapes (every assignment of a small pool of names to the binders and uses of a skeleton) and the
+    # declaration-level shapes, each against its image under the global renaming: collisions are preserved, so the verdict
+    # must be; and implementation and model must agree on both
+    from .. import smallprogs as SP
+    from .. import declshapes as DS
+    for i, k, t in SP.stream(seed + 2, 4000 if tier == "quick" else None):
+        pairs.append((i, "small:suffix", t, suffix_rename(t)))
+    for i, k, t in DS.stream():
+        pairs.append((i, "decl:suffix", t, suffix_rename(t)))
     for j in range(n_ty):
         i, s = rng.choice(seeds)
         kind, t = P7.type_mutate(rng, s)
